@@ -34,7 +34,11 @@ def planned_permutation(kind, n, rng, pairs=(), batch_size=None, faithful=None):
         rng.shuffle(idx)
         bs = batch_size if batch_size else n
         for (i, j) in pairs:
-            if i >= n or j >= n or i == j:
+            # a label below 0 names no sample; the adversarial order nevertheless treats it as numpy indexing would
+            # (sample n+i), so that code which lets such a label wrap around meets the two samples in one batch
+            i = i + n if -n <= i < 0 else i
+            j = j + n if -n <= j < 0 else j
+            if not (0 <= i < n and 0 <= j < n) or i == j:
                 continue
             pi, pj = idx.index(i), idx.index(j)
             if kind == "join_pairs":
